@@ -482,6 +482,31 @@ impl Engine for BlobEngine {
                 return res;
             }
             Err(reason) => {
+                let file = job_workload(ctx.master_seed, ctx.job, ctx.tier);
+                if crate::engine_upgrade::reference_roundtrips(&file) {
+                    // the reference build (pinned release + recorded fixes) handles this file: the
+                    // round trip through the zstd wrappers must work on this tree as well
+                    let r = catch_unwind(AssertUnwindSafe(|| preflate_rs::compress_zstd(&file, 0).and_then(|b| preflate_rs::decompress_zstd(&b, 256 << 20))));
+                    let ok = matches!(&r, Ok(Ok(v)) if *v == file);
+                    if !ok {
+                        let _ = util::take_last_panic();
+                        let h = hash_bytes(&file);
+                        res.evaluations += 1;
+                        res.digest = hash_bytes(reason.as_bytes());
+                        res.violations.push(Violation {
+                            clause: "roundtrip_regression".into(),
+                            key: format!("roundtrip_regression:{}:{:016x}", reason, h),
+                            what: format!("decompress_zstd(compress_zstd(F)) does not return F for a file that the reference build round-trips (fault-free baseline on this tree: {})", reason),
+                            replay: J::obj()
+                                .set("engine", J::str("blob"))
+                                .set("workload_hash", J::Str(format!("{:016x}", h)))
+                                .set("plan_key", J::str("roundtrip"))
+                                .set("plan", J::obj().set("store_op", StoreOp::Intact.to_json()).set("capacity", J::u(256 << 20)))
+                                .set("workload_hex", J::Str(json::hex(&file))),
+                        });
+                        return res;
+                    }
+                }
                 res.bump("baseline_rejected");
                 res.bump(&format!("baseline_rejected.{}", reason));
                 res.digest = hash_bytes(reason.as_bytes());
@@ -717,7 +742,23 @@ impl Engine for BlobEngine {
                     detail: format!("compress_zstd failed on a file that expands and round-trips fault-free: {}", r),
                 }
             }
-            Err(r) => return bad(format!("workload no longer round-trips fault-free on this tree ({})", r)),
+            Err(r) => {
+                if doc.get_str("plan_key") == Some("roundtrip") || doc.get_str("clause") == Some("roundtrip_regression") {
+                    let file = json::unhex(doc.get_str("workload_hex").unwrap_or("")).unwrap_or_default();
+                    if crate::engine_upgrade::reference_roundtrips(&file) {
+                        let rr = catch_unwind(AssertUnwindSafe(|| preflate_rs::compress_zstd(&file, 0).and_then(|b| preflate_rs::decompress_zstd(&b, 256 << 20))));
+                        if !matches!(&rr, Ok(Ok(v)) if *v == file) {
+                            let _ = util::take_last_panic();
+                            return ReplayOutcome {
+                                clause: Some("roundtrip_regression".into()),
+                                digest: 0,
+                                detail: format!("decompress_zstd(compress_zstd(F)) does not return F for a file that the reference build round-trips ({})", r),
+                            };
+                        }
+                    }
+                }
+                return bad(format!("workload no longer round-trips fault-free on this tree ({})", r));
+            }
         };
         let out = execute(&prep, &op, cap as usize);
         match judge(&prep, cap as usize, &out) {
